@@ -31,6 +31,7 @@
 //	                                22 n, the n observations of the entity operation, [23 if the overlapped operation
 //	                                returned only after the release,] the observations of the overlapped operation
 //	16 p                            peer p disconnects (RemoveRemoteDeviceConnection) and is set up again
+//	17 e fid d                      SetDescriptionString(custom text d >= 1) on the existing feature fid of entity object e
 //
 // Burst observations are canonical: the ids taken from the generator are sorted and paired with the
 // calls that take one in the order given (which goroutine obtained which id is the schedule's
@@ -952,6 +953,20 @@ func (m *impl) Exec(op hx.Zs) []hx.Zs {
 		}
 		m.reconnect(m.peers[op[1]])
 		return m.quiet([]hx.Zs{{17}})
+	case 17:
+		if len(op) != 4 || op[3] < 1 {
+			return bad
+		}
+		ent := m.objs[op[1]]
+		if ent == nil {
+			return m.quiet([]hx.Zs{{2}})
+		}
+		f := ent.FeatureOfAddress(util.Ptr(model.AddressFeatureType(m.toImpl(op[1], op[2]))))
+		if f == nil || reflect.ValueOf(f).IsNil() {
+			return m.quiet([]hx.Zs{{18}})
+		}
+		f.SetDescriptionString(descOf(op[3]))
+		return m.quiet([]hx.Zs{{17}})
 	}
 	return bad
 }
@@ -1190,7 +1205,10 @@ var burstStats = map[string]int{}
 // ---------------------------------------------------------------- generator
 
 // sim predicts ids and the tree so that the generator can aim at existing features and parked threads
-type simFeat struct{ id, ty, role int64 }
+type simFeat struct {
+	id, ty, role int64
+	at           int // the feature exists after this many operations of the history
+}
 type simEnt struct {
 	ctr    int64
 	feats  []simFeat
@@ -1317,7 +1335,7 @@ func (s *sim) duringRounds() {
 }
 
 func newSim(r *hx.Rng) *sim {
-	return &sim{r: r, ents: map[int64]*simEnt{0: {ctr: 2, feats: []simFeat{{0, 1, 3}, {1, 2, 2}}, member: true}}, list: []int64{0},
+	return &sim{r: r, ents: map[int64]*simEnt{0: {ctr: 2, feats: []simFeat{{0, 1, 3, 0}, {1, 2, 2, 0}}, member: true}}, list: []int64{0},
 		thr: map[int64][3]int64{}, reads: map[int64][]int64{}, subs: map[[2]int64]bool{}}
 }
 
@@ -1449,7 +1467,7 @@ func (s *sim) burst(e int64, k int) {
 				id := en.ctr
 				en.ctr++
 				if !s.has(e, ty, role) {
-					en.feats = append(en.feats, simFeat{id, ty, role})
+					en.feats = append(en.feats, simFeat{id, ty, role, len(s.h) + 1})
 				}
 			} else {
 				s.created(e, ty, role)
@@ -1606,7 +1624,7 @@ func (s *sim) addFeatureTo(e, ty, role int64) {
 		id := en.ctr
 		en.ctr++
 		if !s.has(e, ty, role) {
-			en.feats = append(en.feats, simFeat{id, ty, role})
+			en.feats = append(en.feats, simFeat{id, ty, role, len(s.h) + 1})
 		}
 	}
 }
@@ -1639,7 +1657,7 @@ func (s *sim) nextID() {
 func (s *sim) created(e, ty, role int64) {
 	en := s.ents[e]
 	if !s.has(e, ty, role) {
-		en.feats = append(en.feats, simFeat{en.ctr, ty, role})
+		en.feats = append(en.feats, simFeat{en.ctr, ty, role, len(s.h) + 1})
 		en.ctr++
 	}
 }
@@ -1969,7 +1987,60 @@ func gen(r *hx.Rng, tier string, i int) []hx.Zs {
 		s.endAllReads()
 		s.read()
 	}
-	return s.h
+	return s.sprinkleDescriptions()
+}
+
+// sprinkleDescriptions inserts description changes of existing features into the finished history of
+// any class (they change nothing the generators aim at): after a read -- followed by another read --,
+// between RemoveEntity and a re-adding AddEntity, and anywhere else.
+func (s *sim) sprinkleDescriptions() []hx.Zs {
+	r := s.r
+	// a feature that exists after n operations, preferably of entity e (e < 0: any entity)
+	pick := func(n int, e int64) (hx.Zs, bool) {
+		var cand [][2]int64
+		for x := int64(0); x <= maxEnt; x++ {
+			if en := s.ents[x]; en != nil && (e < 0 || e == x) {
+				for _, f := range en.feats {
+					if f.at <= n && (x != 0 || r.Chance(1, 3)) {
+						cand = append(cand, [2]int64{x, f.id})
+					}
+				}
+			}
+		}
+		if len(cand) == 0 {
+			return nil, false
+		}
+		c := cand[r.Intn(len(cand))]
+		return hx.Zs{17, c[0], c[1], int64(r.Range(1, 6))}, true
+	}
+	var out []hx.Zs
+	for i, op := range s.h {
+		out = append(out, op)
+		n := i + 1
+		switch {
+		case (op[0] == 11 || op[0] == 13) && r.Chance(1, 3):
+			// read -> SetDescr -> read
+			if z, ok := pick(n, -1); ok {
+				out = append(out, z, hx.Zs{11, int64(r.Intn(nPeers))})
+				genStats["setdescr_between_two_reads"]++
+			}
+		case op[0] == 2 && r.Chance(1, 3):
+			// announced -> removed -> SetDescr -> announced again
+			if z, ok := pick(n, op[1]); ok {
+				out = append(out, z, hx.Zs{1, op[1]})
+				genStats["setdescr_between_remove_and_add"]++
+			}
+		case r.Chance(1, 14):
+			if z, ok := pick(n, -1); ok {
+				if r.Chance(1, 10) {
+					z[2] += 7 // no such feature
+				}
+				out = append(out, z)
+				genStats["setdescr_elsewhere"]++
+			}
+		}
+	}
+	return out
 }
 
 func fixed(tier string) [][]hx.Zs {
@@ -1995,6 +2066,10 @@ func fixed(tier string) [][]hx.Zs {
 		// reads behind peer 0's connection, peer 1 reconnects, a During whose entity operation notifies nobody, a missing object
 		{{0, 1, 5}, {3, 1, 4, 2, 0}, {9, 0, 0}, {9, 1, 1}, {15, 1, 1, 0, 0, 2}, {15, 0, 1, 1, 1, 0}, {15, 1, 1, 0, 0, 1}, {16, 1},
 			{15, 0, 1, 2, 1, 2}, {15, 1, 3, 0, 0, 0}, {11, 1}},
+		// C07_nonvacuous_setdescr: a description set before the first announcement, changed between two reads, changed between
+		// RemoveEntity and AddEntity, on an unknown feature / entity object, on the device classification feature of entity 0
+		{{0, 1, 5}, {3, 1, 4, 2, 0, 11, 1, 0, b2i(psup(4, 11))}, {9, 0, 0}, {17, 1, 1, 3}, {1, 1}, {11, 1}, {17, 1, 1, 7}, {11, 1}, {2, 1},
+			{17, 1, 1, 2}, {1, 1}, {17, 1, 9, 2}, {17, 4, 1, 2}, {17, 0, 1, 5}, {11, 2}},
 	}
 }
 
@@ -2005,7 +2080,7 @@ func main() {
 			4: "feature-id-reused", 5: "get-or-add-not-one-feature", 6: "malformed-observation", 7: "blocked-behind-stalled-notification", 98: "unparseable-observation", 99: "unparseable-operation"},
 		OpNames: map[int64]string{0: "new-entity", 1: "add-entity", 2: "remove-entity", 3: "add-feature", 4: "add-function", 5: "next-id",
 			6: "get-or-add", 7: "get-or-add.lookup", 8: "get-or-add.create", 9: "subscribe", 10: "unsubscribe", 11: "read",
-			12: "read.begin", 13: "read.end", 14: "burst", 15: "during", 16: "reconnect"},
+			12: "read.begin", 13: "read.end", 14: "burst", 15: "during", 16: "reconnect", 17: "set-description"},
 		NewImpl: newImpl,
 		Gen:     gen,
 		Fixed:   fixed,
